@@ -917,6 +917,52 @@ pub fn run_history(m: &'static Module, history: &[Event], opts: &ExecOpts) -> Ru
             }
             continue;
         }
+        if let Op::FromStr(i, k) = &ev.op {
+            let name = m.names[(*i).min(n - 1)];
+            let arg: String = match k {
+                0 => name.to_string(),
+                1 => format!("{}x", name),
+                2 => {
+                    let mut cs: Vec<char> = name.chars().collect();
+                    cs.pop();
+                    cs.into_iter().collect()
+                }
+                _ => {
+                    let mut cs: Vec<char> = name.chars().collect();
+                    if let Some(c) = cs.first_mut() {
+                        *c = if c.is_uppercase() {
+                            c.to_lowercase().next().unwrap_or(*c)
+                        } else {
+                            c.to_uppercase().next().unwrap_or(*c)
+                        };
+                    }
+                    cs.into_iter().collect()
+                }
+            };
+            for f in [m.from_str, m.from_str_trait].into_iter().flatten() {
+                stats.probes += 1;
+                if guarded_plain(|| f(&arg)).is_err() {
+                    stats.probe_panics += 1;
+                }
+            }
+            if let Some(f) = m.as_str {
+                stats.probes += 1;
+                if guarded_plain(|| f((*i).min(n - 1))).is_err() {
+                    stats.probe_panics += 1;
+                }
+            }
+            if let Some((raw, _)) = take_invalid() {
+                fail!(
+                    "invalid_enum",
+                    None,
+                    step,
+                    op_s,
+                    "a declared variant or None".to_string(),
+                    format!("bit pattern {}", raw)
+                );
+            }
+            continue;
+        }
         if let Op::Probe = &ev.op {
             let ds: Vec<i128> = recent[c].iter().rev().take(2).cloned().collect();
             let ns: Vec<&'static str> = recent_names[c].iter().rev().take(2).cloned().collect();
